@@ -4,6 +4,7 @@ import (
 	"bytes"
 	"encoding/json"
 	"fmt"
+	"github.com/tobgu/qframe/config/csv"
 	"math"
 	"sort"
 	"strconv"
@@ -188,6 +189,44 @@ func cellMatches(c hx.Col, r int, text string, nullText string) bool {
 }
 
 func checkCSV(qf qframe.QFrame, tab hx.Table) string {
+	// first in another column order, twice with the same option value (and the caller's slice behind it): both
+	// writes tell the same as the plain one
+	if len(tab.Cols) > 1 {
+		rev := make([]string, len(tab.Cols))
+		for i, c := range tab.Cols {
+			rev[len(rev)-1-i] = c.Name
+		}
+		opt := csv.Columns(rev)
+		var outs [2]string
+		for k := range outs {
+			var b bytes.Buffer
+			if err := qf.ToCSV(&b, opt); err != nil {
+				return fmt.Sprintf("ToCSV with Columns(%q), call %d: %v", rev, k+1, err)
+			}
+			outs[k] = b.String()
+		}
+		if outs[0] != outs[1] {
+			return fmt.Sprintf("two ToCSV calls with one Columns option wrote different texts: %q vs %q", clipS(outs[0]), clipS(outs[1]))
+		}
+		rows, err := hx.ParseCSV([]byte(outs[1]), ',')
+		if err != nil || len(rows) != tab.N()+1 {
+			return fmt.Sprintf("ToCSV with Columns wrote %d lines (%v), want header + %d rows", len(rows), err, tab.N())
+		}
+		for r := 0; r <= tab.N(); r++ {
+			if len(rows[r]) != len(tab.Cols) {
+				return fmt.Sprintf("ToCSV with Columns: line %d has %d fields, want %d", r, len(rows[r]), len(tab.Cols))
+			}
+			for ci := range tab.Cols {
+				c := tab.Cols[len(tab.Cols)-1-ci]
+				if r == 0 && rows[0][ci] != c.Name {
+					return fmt.Sprintf("ToCSV with Columns(%q): header field %d is %q", rev, ci, rows[0][ci])
+				}
+				if r > 0 && !cellMatches(c, r-1, rows[r][ci], "") {
+					return fmt.Sprintf("ToCSV with Columns: row %d column %q: wrote %q, frame holds %s", r-1, c.Name, rows[r][ci], c.Cell(r-1))
+				}
+			}
+		}
+	}
 	var buf bytes.Buffer
 	if err := qf.ToCSV(&buf); err != nil {
 		return "ToCSV error: " + err.Error()
